@@ -117,6 +117,7 @@ type StubCfg struct {
 type Scenario struct {
 	Prop     string           `json:"prop"`
 	Family   string           `json:"family"` // generator family within the property
+	Runner   string           `json:"runner,omitempty"` // "" = store scenario; wheel | buffer | stream = component simulators
 	Seed     uint64           `json:"seed"`
 	Cache    CacheCfg         `json:"cache"`
 	Sim      SimCfg           `json:"sim"`
@@ -152,6 +153,7 @@ type Rec struct {
 	N2     uint64 `json:"n2,omitempty"`   // stats: misses
 	Pairs  []KV   `json:"pairs,omitempty"`
 	Tag    string `json:"tag,omitempty"`
+	Stale  int64  `json:"stale,omitempty"` // white-box: max staleness (ns) of the cached clock at invoke/return
 }
 
 type LRec struct { // removal listener call
@@ -213,6 +215,9 @@ type RunData struct {
 	Pending      []PendingNote
 	ClientTask   []int // task id of client c at index c+1
 	Debug        []DebugLine
+	Nontrivial   int   // component sims: 1 = non-trivial, -1 = trivial, 0 = default rule
+	Evals        int64 // sub-cases evaluated inside this run (fault enumeration)
+	Extra        map[string]any
 	Checked      int   // histories checked by porcupine
 	Inconclusive int   // porcupine timeouts (never reported, never a pass)
 }
